@@ -35,6 +35,9 @@ def run(col, configs, tier):
         guarded(col, X.rule_mixed_base_scaling, facts)
         guarded(col, X.rule_reparse_skips_zeros, facts)
         guarded(col, X.rule_compare_equal_exhausted, facts)
+        guarded(col, X.rule_compare_decodes, facts)
+        guarded(col, X.rule_exponent_narrowing, facts)
+        guarded(col, X.rule_denormal_shift, facts)
         from rules import dispatch
         guarded(col, dispatch.rule_dispatch_table, facts)
         guarded(col, X.rule_bigfloat_bits, facts)
